@@ -77,10 +77,17 @@ struct Pos {
     enc: String,
 }
 
-fn observe_positions(out: &mut Out, h: &Hist, index: &dyn Index, store: &Arc<Store>, label: &str) -> Option<Pos> {
+fn observe_positions(out: &mut Out, h: &Hist, index: &dyn Index, store: &Arc<Store>, label: &str,
+                     expected: &BTreeSet<usize>) -> Option<Pos> {
     let members: Vec<usize> = (0..h.commits.len())
         .filter(|&i| index.has_id(h.commits[i].id()).block_on().unwrap())
         .collect();
+    // the index contains exactly the commits added through the transactions that led to this state
+    if members.iter().copied().collect::<BTreeSet<_>>() != *expected {
+        out.oracle_fail("index:membership-differs-from-history",
+            format!("{label}: indexed {members:?}, history says {expected:?}"));
+        return None;
+    }
     let ids: Vec<CommitId> = members.iter().map(|&i| h.commits[i].id().clone()).collect();
     let desc = match guard(|| eval_ids(index, store, &ResolvedExpression::Commits(ids))) {
         Ok(Ok(v)) => v,
@@ -123,8 +130,8 @@ fn is_desc(v: &[usize]) -> bool { v.windows(2).all(|w| w[0] > w[1]) }
 
 #[allow(clippy::too_many_arguments)]
 fn probe(out: &mut Out, r: &mut Rng, h: &Hist, index: &dyn Index, ro: Option<&DefaultReadonlyIndex>, store: &Arc<Store>,
-         label: &str, budget: usize) {
-    let Some(pos) = observe_positions(out, h, index, store, label) else { return };
+         label: &str, budget: usize, expected: &BTreeSet<usize>) {
+    let Some(pos) = observe_positions(out, h, index, store, label, expected) else { return };
     let n = pos.at.len();
     out.tally("state", label);
     out.tally("index-size", &format!("{:02}-{:02}", n / 10 * 10, n / 10 * 10 + 9));
@@ -322,16 +329,21 @@ fn one_history(cfg: &Cfg, out: &mut Out, r: &mut Rng, hist_no: u64) {
     // first transaction larger, later ones smaller ⇒ segments stack instead of squashing
     let mut size = r.range(1, 16);
     let mut max_levels = 1;
+    let mut indexed: BTreeSet<usize> = [0].into_iter().collect();
     for round in 0..rounds {
-        let visible: Vec<usize> = (0..h.commits.len()).filter(|&i| repo.index().has_id(h.commits[i].id()).block_on().unwrap()).collect();
+        let visible: Vec<usize> = indexed.iter().copied().collect();
+        let mut after = indexed.clone();
         let concurrent = if round > 0 && r.chance(1, 4) { r.range(2, 3) } else { 1 };
         let mut txs = vec![];
         for _ in 0..concurrent {
             let mut tx = repo.start_transaction();
             let cnt = if concurrent > 1 { r.range(1, size.max(1)) } else { size };
-            write_commits(r, &mut h, tx.repo_mut(), &visible, cnt, &change_pool, 5);
+            let new = write_commits(r, &mut h, tx.repo_mut(), &visible, cnt, &change_pool, 5);
+            after.extend(new.iter().copied());
             if r.chance(1, 2) {
-                probe(out, r, &h, tx.repo().index(), None, &store, "mutable", budget / 2);
+                let mut in_tx = indexed.clone();
+                in_tx.extend(new.iter().copied());
+                probe(out, r, &h, tx.repo().index(), None, &store, "mutable", budget / 2, &in_tx);
             }
             txs.push(tx);
         }
@@ -342,25 +354,26 @@ fn one_history(cfg: &Cfg, out: &mut Out, r: &mut Rng, hist_no: u64) {
             repo = repo.reload_at_head().block_on().unwrap(); // merges the operations, merge_in on the index
             out.tally("merged-concurrent-ops", &concurrent.to_string());
         }
+        indexed = after;
         let ro: &DefaultReadonlyIndex = repo.readonly_index().downcast_ref().unwrap();
         max_levels = max_levels.max(ro.stats().commit_levels.len());
-        probe(out, r, &h, repo.index(), Some(ro), &store, if concurrent > 1 { "readonly-merged" } else { "readonly" }, budget);
+        probe(out, r, &h, repo.index(), Some(ro), &store, if concurrent > 1 { "readonly-merged" } else { "readonly" }, budget, &indexed);
         size = match r.below(4) { 0 => r.range(1, 12), _ => (size / 2).max(1) - r.below(2).min((size / 2).max(1) - 1) };
     }
     out.tally("max-segment-levels", &max_levels.to_string());
     // fresh loader: every segment file is parsed by the real reader
     let fresh = test_repo.env.load_repo_at_head(&settings, test_repo.repo_path());
     let ro: &DefaultReadonlyIndex = fresh.readonly_index().downcast_ref().unwrap();
-    probe(out, r, &h, fresh.index(), Some(ro), &store, "reloaded-from-disk", budget * 2);
+    probe(out, r, &h, fresh.index(), Some(ro), &store, "reloaded-from-disk", budget * 2, &indexed);
     // rebuild from the operation log (different insertion order), then load again
     if r.chance(1, 3) {
         let dis: &DefaultIndexStore = fresh.index_store().downcast_ref().unwrap();
         dis.reinit().unwrap();
         let rebuilt = dis.build_index_at_operation(fresh.operation(), &store).block_on().unwrap();
-        probe(out, r, &h, &rebuilt, Some(&rebuilt), &store, "rebuilt", budget);
+        probe(out, r, &h, &rebuilt, Some(&rebuilt), &store, "rebuilt", budget, &indexed);
         let again = test_repo.env.load_repo_at_head(&settings, test_repo.repo_path());
         let ro: &DefaultReadonlyIndex = again.readonly_index().downcast_ref().unwrap();
-        probe(out, r, &h, again.index(), Some(ro), &store, "rebuilt-reloaded", budget / 2);
+        probe(out, r, &h, again.index(), Some(ro), &store, "rebuilt-reloaded", budget / 2, &indexed);
     }
 }
 
